@@ -1,5 +1,8 @@
 //! This module provides a source of fresh labels during code generation.
 
+use std::collections::HashSet;
+use std::sync::Mutex;
+
 static mut COUNTER: usize = 0;
 
 /// This function is used to generate fresh labels by incrementing and returning a global counter.
@@ -7,5 +10,32 @@ pub fn fresh_label() -> usize {
     unsafe {
         COUNTER += 1;
         COUNTER
+    }
+}
+
+/// The labels of jump tables and of their entries that have been handed out so far.
+static USED_TABLE_LABELS: Mutex<Option<HashSet<String>>> = Mutex::new(None);
+
+/// This function generates a fresh base label `<base>_<n>` for a jump table whose entries for the
+/// given xtors are labelled `<base>_<n>_<xtor>`. Names of types and xtors may themselves contain
+/// underscores and digits, so the label of a table could coincide with the label of an entry of an
+/// earlier table (and vice versa). Hence, a number is only used if none of the resulting labels has
+/// been handed out before.
+/// - `base` is the base name of the table, derived from the type of the scrutinee or closure.
+/// - `xtors` are the names of the xtors of the entries.
+pub fn fresh_table_label(base: &str, xtors: &[String]) -> String {
+    let mut used = USED_TABLE_LABELS
+        .lock()
+        .unwrap_or_else(std::sync::PoisonError::into_inner);
+    let used = used.get_or_insert_with(HashSet::new);
+    loop {
+        let label = format!("{base}_{}", fresh_label());
+        let labels: Vec<String> = std::iter::once(label.clone())
+            .chain(xtors.iter().map(|xtor| format!("{label}_{xtor}")))
+            .collect();
+        if labels.iter().all(|label| !used.contains(label)) {
+            used.extend(labels);
+            return label;
+        }
     }
 }
